@@ -449,6 +449,8 @@ class Gen:
             n = int(np.prod(csh)) if csh else 1
             s = {"k": "op", "h": h, "f": "where", "a": [{"h": a}, b],
                  "cond": {"sh": list(csh), "v": [r.random() < 0.5 for _ in range(n)]}}
+            if r.random() < 0.3:
+                s["cs"] = r.choice(["i8", "i1", "f8"])     # the condition as a 0/1 array of another dtype
             ops = s["a"]
         elif fam == "join":
             if A.ndim == 0:
